@@ -132,6 +132,16 @@ Theorem sentence_schedule :
 Proof. exact sentence_table_proof. Qed.
 Print Assumptions sentence_schedule.
 
+(** The numbers the property was reviewed against (a change in the source shows up here). *)
+Theorem constants_as_reviewed :
+  Gen.C12.keep_alive_ttl = 2000 /\ Gen.C12.grace_period = 30 /\
+  Gen.C12.check_period = 10 /\ Gen.C12.check_after = 50 /\
+  (Gen.C12.share_num, Gen.C12.share_den) = (1, 4) /\
+  Gen.C12.jail_sentences = [60000000000; 300000000000; 900000000000; 3600000000000; 86400000000000] /\
+  (Gen.C12.reset_floor, Gen.C12.reset_div) = (1800000000000, 20).
+Proof. exact (conj eq_refl (conj eq_refl (conj eq_refl (conj eq_refl (conj eq_refl (conj eq_refl eq_refl)))))). Qed.
+Print Assumptions constants_as_reviewed.
+
 (** Ties to the translated source (break when the source changes back):
     the writer is the separator-free encoder and the legacy reader is gated / deleted. *)
 From Coq Require Import String.
